@@ -179,6 +179,26 @@ def _compare_generic_type_args(
     return all(is_type_compatible(t1, t2, memo) for t1, t2 in zip(incoming_args, required_args))
 
 
+def _compare_tuple_type_args(
+    incoming_args: tuple[Any, ...],
+    required_args: tuple[Any, ...],
+    memo: TypeCheckMemo,
+) -> bool:
+    """Compare the arguments of two ``tuple`` types, respecting their length.
+
+    ``tuple[X, ...]`` is a tuple of any length, ``tuple[X, Y]`` has exactly two elements.
+    """
+    if not required_args or not incoming_args:
+        return True
+    incoming_variadic = len(incoming_args) == 2 and incoming_args[1] is Ellipsis
+    if len(required_args) == 2 and required_args[1] is Ellipsis:
+        elements = incoming_args[:1] if incoming_variadic else incoming_args
+        return all(is_type_compatible(t, required_args[0], memo) for t in elements)
+    if incoming_variadic or len(incoming_args) != len(required_args):
+        return False
+    return all(is_type_compatible(t1, t2, memo) for t1, t2 in zip(incoming_args, required_args))
+
+
 def _handle_generic_types(
     incoming_type: type[Any],
     required_type: type[Any],
@@ -201,6 +221,8 @@ def _handle_generic_types(
             return False
         incoming_args = get_args(incoming_type)
         required_args = get_args(required_type)
+        if incoming_origin is tuple and required_origin is tuple:
+            return _compare_tuple_type_args(incoming_args, required_args, memo)
         return _compare_generic_type_args(incoming_args, required_args, memo)
 
     return None
